@@ -105,6 +105,7 @@ def main(argv):
         # graphs from the source front end: the library has no serialised form for PythonASTBlock (known finding)
         inputs += rb.domain_inputs(args.tier, args.seed, "S", scale=0.2 if quick else 0.1)
         inputs += word_inputs(args.seed, 150 if quick else 1500)
+        inputs += rb.domain_inputs(args.tier, args.seed, "M")
     d = rb.workdir(PROP)
     try:
         res = rb.record_domain(inputs, d, jobs=args.jobs, shards=args.jobs, stages=True, hook="harness.hooks:roundtrip",
